@@ -22,6 +22,8 @@ PAIRS = {
     'grow-interleaved': ('CNO', geo.PATTERNS['planar3'][1], 'CSNOP', [geo.PATTERNS['planar3'][1][0], [1.6, 1.5, 1.3], geo.PATTERNS['planar3'][1][1], geo.PATTERNS['planar3'][1][2], [2.4, 2.3, 2.1]]),
     # elements whose one-letter symbols are prefixes of other symbols (B / Be Br Ba Bi, S / Si Se Sc Sn Sr Sb, I / In Ir)
     'bsi-swap': ('BSI', geo.PATTERNS['planar3'][1], 'BSO', geo.PATTERNS['planar3'][1]),
+    # two atoms replaced by ONE atom that sits on neither of them (it still has to be carried into the frame of every match)
+    'to-single-offset': ('CN', geo.PATTERNS['pair'][1], 'S', [[0.7, 0.55, 0.3]]),
     'collinear-swap': ('CNO', geo.PATTERNS['collinear3'][1], 'CNS', geo.PATTERNS['collinear3'][1][:2] + [[2.5, 0.0, 0.0]]),
 }
 
@@ -68,10 +70,10 @@ def shared_map(sp, rp, tol=1e-5):
     return m
 
 
-def planted(cellname, pairname, copies, seed, decoys=3, straddle=True, noise=0.0, tilt=None, near_miss=0, atol=0.05):
+def planted(cellname, pairname, copies, seed, decoys=3, straddle=True, noise=0.0, tilt=None, near_miss=0, atol=0.05, unwrapped=False):
     rnd = random.Random(seed)
     se, sx, _, _ = PAIRS[pairname]
-    case = geo.build(cellname, None, copies, rnd, decoys=decoys, straddle=straddle, pattern_override=(se, sx), noise=noise, tilt=tilt, near_miss=near_miss, atol=atol)
+    case = geo.build(cellname, None, copies, rnd, decoys=decoys, straddle=straddle, pattern_override=(se, sx), noise=noise, tilt=tilt, near_miss=near_miss, atol=atol, unwrapped=unwrapped)
     if seed % 2 == 1:
         gen.add_unused_type(case['structure'])     # every second planted structure carries a trailing atom type that no atom uses
     if len(se) == 1:
